@@ -21,7 +21,7 @@ ASSUMPTIONS = ['shape bound: 0..3 existing log files (stamps, sizes, budgets, re
                'a log file name is an injective function of its microsecond stamp (one writer: same prefix, suffix, timezone string)',
                'histories are sequences of atomic public operations (each holds self.lock); other parties appear as rely steps (external deletion of any file)']
 UNDECIDED_CLAUSES = ['record-level reader clause: decided per call as the CURSOR law of the real read()/read_block() (ReadUnit) plus the index functions; that a file on disk is a sequence of whole '
-                     'records (the writer appends data + newline in one write) is assumed, and the decode/split tail of read() for txt/json modes is not modelled (binl mode is)']
+                     'records (the writer appends data + newline in one write) is assumed, the decode/split tail of read() is modelled for binl, txt, bin and json record mode; json BLOCK mode (a list comprehension over an unknown number of lines) is not']
 EXPLANATION = 'Writer invariant LogInv preserved by the real write/new_logfile/prune_logfiles for arbitrary (equal, backwards) timestamps; budget, newest-kept, no-overwrite and rebase clauses.'
 
 
@@ -327,19 +327,25 @@ class ReadUnit(Unit):
                 for opened in ((False, True) if idx < N else (False,)):
                     for block in (False, True):
                         for auto, nnew in ((False, 0), (True, 0), (True, 1), (True, 2)):
+                          for mode in (('binl',) if (tier == 'quick' and not (N == 2 and idx == 1 and opened and nnew == 0)) else ('binl', 'txt', 'json', 'bin')):
+                            if mode == 'json' and block:
+                                continue      # a block of json records is a list comprehension over an unknown number of lines: not modelled
                             if tier == 'quick' and N == 3 and (idx, opened) not in ((0, True), (1, False), (3, False)):
                                 continue
                             if nnew == 2 and (N == 3 or (tier == 'quick' and (N, idx, opened) not in ((2, 1, True), (1, 0, True), (2, 2, False), (0, 0, False)))):
                                 continue
-                            out.append((N, idx, opened, block, auto, nnew))
+                            out.append((N, idx, opened, block, auto, nnew, mode))
         return out
 
     def run(self, shape, dec):
-        N, idx, opened, block, auto, nnew = shape
+        N, idx, opened, block, auto, nnew, mode = shape
         ex = new_exec(dec, ROLL)
         fs = RM.setup(ex)
+        ex.modules[ROLL]['json_loads'] = Native(lambda ex_, v: Obj('parsed', of=v), 'json_loads')
         me, files = make_log(ex, fs, N, False, (idx, opened), rdonly=True)
-        me.f['mode'] = 'binl'
+        me.f['mode'] = mode
+        if mode == 'bin':
+            block = True          # read() itself forces block mode for 'bin'
         me.f['autorefresh'] = auto
         # rely: any listed file may have been deleted externally; sizes on disk are whatever the writer reached (not the listed ones)
         for i, lf in enumerate(fs.logs):
@@ -409,7 +415,7 @@ class ReadUnit(Unit):
         else:
             ex.cover('read returned a record')
             d = res
-            while isinstance(d, Obj) and d.cls in ('datalines',):
+            while isinstance(d, Obj) and d.cls in ('datalines', 'parsed'):
                 d = d.f['of']
             while isinstance(d, Obj) and d.cls == 'data' and d.f.get('stripped') is not None:
                 d = d.f['stripped']
@@ -423,10 +429,14 @@ class ReadUnit(Unit):
             O('C13.cursor: the chunk is not empty', zi(d.f['n']) > 0)
             if block:
                 O('C13.cursor: block mode returns everything up to the end of that file', zi(d.f['start']) + zi(d.f['n']) == zi(lf.f['size']))
-                O('C13.cursor: block mode returns the records without their newlines', isinstance(res, Obj) and res.cls == 'datalines' and res.f['cut'] == 1)
+                if mode == 'bin':
+                    O('C13.cursor: bin mode returns the bytes as they are', res is d)
+                else:
+                    O('C13.cursor: block mode returns the records without their newlines', isinstance(res, Obj) and res.cls == 'datalines' and res.f['cut'] == 1)
             else:
                 O('C13.cursor: record mode returns exactly one whole record (up to the next record boundary), without its newline',
-                  z3.And(zi(d.f['start']) + zi(d.f['n']) == RM.REC_END(zi(lf.f['us']), zi(start)), z3.BoolVal(isinstance(res, Obj) and res.cls == 'data' and res.f.get('stripped') is d)))
+                  z3.And(zi(d.f['start']) + zi(d.f['n']) == RM.REC_END(zi(lf.f['us']), zi(start)), z3.BoolVal((isinstance(res, Obj) and res.cls == 'data' and res.f.get('stripped') is d) if mode != 'json' else
+                                                                                                                      (isinstance(res, Obj) and res.cls == 'parsed' and isinstance(res.f['of'], Obj) and res.f['of'].f.get('stripped') is d))))
             for u in uni[:k]:
                 O('C13.cursor: no earlier file with unread bytes is passed over (records come in writing order)', z3.Or(z3.Not(has(u)), gone(u)))
             if k > 0:
